@@ -1,3 +1,1 @@
 #include "exec.hpp"
-void Exec::op_lu(Client &) { T("  (lu ops not built yet)"); }
-void Exec::op_esolver(Client &) { T("  (cli ops not built yet)"); }
